@@ -506,15 +506,16 @@ class World:
         seams.RANDN.reseed(seed)
         seams.LINALG.reset()
         seams.drain_log()
-        if fault and fault["kind"] == "crash":
-            seams.CRASH.start_trace()
-        try:
-            fres = fn(fobj, args, rec.D, fget)
-        except Exception as e:
-            fexc = e
-        finally:
+        if self.mode == "C12" or fault:  # C13 needs the twin only as the counting pass of a faulted step
             if fault and fault["kind"] == "crash":
-                ftrace = seams.CRASH.stop_trace()
+                seams.CRASH.start_trace()
+            try:
+                fres = fn(fobj, args, rec.D, fget)
+            except Exception as e:
+                fexc = e
+            finally:
+                if fault and fault["kind"] == "crash":
+                    ftrace = seams.CRASH.stop_trace()
         fpaths = _paths(seams.drain_log())
         fcounts = dict(seams.LINALG.counts)
         fcb_n = (fcb.count - cb0) if fcb is not None else 0
@@ -568,6 +569,31 @@ class World:
                 self.stat("returned_ops")
         if self.mode == "C12":
             self.judge(i, op, rec, qsig, label, hres, hexc, fres, fexc, fault, fired, foreign)
+        else:
+            # C13 evidence: case = (method, class, argument position, layout of that argument, path, fault fired)
+            import hashlib as _h
+
+            ntens = 0
+            for k_, v_ in args.items():
+                if isinstance(v_, str) and v_ in self.tensors:
+                    ntens += 1
+                    case = (qname, rec.cls, k_, self.tensors[v_]["spec"]["layout"], tuple(hpaths), bool(fired))
+                    hh = _h.blake2b(json.dumps(case).encode(), digest_size=8).hexdigest()
+                    self.cases13.add(hh)
+                    self.nontrivial13.add(hh)
+            for t_ in _iter_refs(rec.spec.get("args", {})):
+                if t_ in self.tensors:
+                    ntens += 1
+                    case = (qname, rec.cls, "defining-tensor", self.tensors[t_]["spec"]["layout"], tuple(hpaths), bool(fired))
+                    hh = _h.blake2b(json.dumps(case).encode(), digest_size=8).hexdigest()
+                    self.cases13.add(hh)
+                    self.nontrivial13.add(hh)
+            if ntens == 0:
+                self.cases13.add(_h.blake2b(json.dumps((qname, rec.cls, "no-tensor")).encode(), digest_size=8).hexdigest())
+            if hres is not None and not self.violations:
+                for j_, t_ in enumerate(hres.tensors[:3]):
+                    if torch.is_tensor(t_) and t_.numel() <= 4096 and len(self.returned) < 40:
+                        self.track_tensor(f"result {j_} of {label} at step {i}", t_)
         self.check_conservation(qname)
 
     def judge(self, i, op, rec, qsig, label, hres, hexc, fres, fexc, fault, fired, foreign):
